@@ -59,12 +59,12 @@ def models(tier):
                   props=["INVARIANT WellFormedInv", "PROPERTY Refinement"],
                   need=["reuse", "selfSplice", "splice"]))
     M.append(dict(name="deque", mod="Deque", c="deque", spec="GenSpec",
-                  consts=dict(NVals=2, MaxLen=5, MaxHist=5 if q else 6, MaxSrc=3, BlockSize=2), p=dict(blockSize=2),
+                  consts=dict(NVals=2, MaxLen=5, MaxHist=5 if q else 6, MaxSrc=3, BlockSize=2, SwapExchangesBlockSize="TRUE"), p=dict(blockSize=2),
                   props=["INVARIANT WellFormedInv", "PROPERTY Refinement"],
                   need=["blockReuse", "newBlock", "blockFreed", "repaired"]))
     if not q:
         M.append(dict(name="deque-3", mod="Deque", c="deque", spec="GenSpec",
-                      consts=dict(NVals=2, MaxLen=7, MaxHist=5, MaxSrc=4, BlockSize=3), p=dict(blockSize=3),
+                      consts=dict(NVals=2, MaxLen=7, MaxHist=5, MaxSrc=4, BlockSize=3, SwapExchangesBlockSize="TRUE"), p=dict(blockSize=3),
                       props=["INVARIANT WellFormedInv", "PROPERTY Refinement"],
                       need=["blockReuse", "newBlock", "repaired"]))
     return M
@@ -531,7 +531,7 @@ def run(res, tier, seed):
         "operations are called inside the preconditions the classes assert (positions within the object, non-empty for pop/front/back); "
         "swap / operator= partners of vector, list, deque and string are temporaries built from literal sequences",
         "element type of vector/list/deque/map values is an instrumented class (live-object count, lifetime errors); keys and code units are plain integers",
-        "XalanDeque::swap is only exercised between deques of equal block size (m_blockSize is const and not exchanged)",
+        "XalanDeque::swap is exercised between deques of equal and of different block sizes (m_blockSize is exchanged since the repair)",
     ]
 
 
